@@ -125,7 +125,15 @@ func (h *chainHandler) interpret(i int, cur **chainRun, c flamego.Context) {
 		case 'n':
 			c.Next()
 		case 'c':
-			run.cancel()
+			if i%2 == 0 {
+				run.cancel()
+			} else {
+				// the timeout-middleware pattern: the request is replaced by one carrying a derived
+				// context, and it is that derived context which gets cancelled
+				ctx, cancel := gocontext.WithCancel(c.Request().Context())
+				c.Request().Request = c.Request().Request.WithContext(ctx)
+				cancel()
+			}
 		case 'm':
 			c.Map(&chainMapped{v: i})
 		case 'h':
